@@ -74,6 +74,7 @@ type Contract struct {
 	MaxAlloc   *Clause
 	Allocates  *Clause
 	PanicsOK   bool
+	FrameOnly  bool // only frame (assigns) and contract obligations: a panicking operation ends the execution, its no-panic condition is assumed afterwards
 	Params     []string // optional explicit parameter names for assumed contracts on functions without source names
 	File       string
 	Line       int
@@ -148,7 +149,7 @@ var labelRe = regexp.MustCompile(`^\[([A-Za-z0-9_.:\-]+)\]\s*`)
 
 var clauseKW = map[string]bool{"props": true, "requires": true, "ensures": true, "assigns": true, "canary": true,
 	"loop": true, "decreases": true, "nooverflow": true, "assumed": true, "inline": true, "let": true, "panics_ok": true,
-	"params": true, "ghost": true, "terminates": true, "bytes": true, "split": true, "uses": true, "after": true, "calls": true,
+	"params": true, "frame_only": true, "ghost": true, "terminates": true, "bytes": true, "split": true, "uses": true, "after": true, "calls": true,
 	"maxalloc": true, "allocates": true, "generic": true, "callarg": true}
 
 func fullName(pkgPath, key string) string {
@@ -371,6 +372,9 @@ func (c *Contract) addClause(kw, text string, line int) error {
 	case "inline":
 		c.Inline = true
 	case "panics_ok":
+		c.PanicsOK = true
+	case "frame_only":
+		c.FrameOnly = true
 		c.PanicsOK = true
 	case "terminates":
 		c.Terminates = true
